@@ -181,7 +181,11 @@ def _commit_fault(case: dict) -> dict:
     from .. import hooks
 
     rng = random.Random(case["seed"] * 1543 + case["i"])
-    spec = _spec_for(case["i"] * 7 + 3, case["seed"]) if case["i"] % 2 else rng.choice(specs.CONFLUENT_FAMILY)()
+    if case["i"] < 2:
+        # shapes in which one completion has two jobs (record its branch on an early-firing join AND start its own successor)
+        spec = specs.early_join_with_successor("DISCRIMINATOR" if case["i"] == 0 else "N_OF_M")
+    else:
+        spec = _spec_for(case["i"] * 7 + 3, case["seed"]) if case["i"] % 2 else rng.choice(specs.CONFLUENT_FAMILY)()
     base = delivery_run(spec, max_steps=1500)
     obs: Counter = Counter()
     keys: set = set()
